@@ -1,0 +1,19 @@
+//go:build verif
+
+package neo4j
+
+import "expvar"
+
+// Verification hook for the /verif C10 check ("emitted Cypher text means the same as the query model it was emitted
+// from"). Compiled only with -tags verif; nothing in the production build refers to it. Read-only: it exposes the pure
+// query rewriting step that neo4jTransaction.Query applies to every query text and parameter map before it is sent, so
+// that the check can compare the parameters the builder bound with the parameters that would reach the server.
+//
+// Published through expvar (looked up by name) so that the external harness builds with and without this file.
+func init() {
+	expvar.Publish("dawgs.verif.c10.neo4jRewriteQuery", expvar.Func(func() any {
+		return func(query string, parameters map[string]any) (string, map[string]any, error) {
+			return rewriteQuery(query, parameters)
+		}
+	}))
+}
